@@ -6,13 +6,13 @@ use crate::report::Ctx;
 use rand::Rng;
 
 pub fn run(ctx: &mut Ctx) {
-    let n = if ctx.thorough() { 40 } else { 5 };
+    let n = if ctx.thorough() { 20 } else { 5 };
     let mut worlds = vec![];
     for _ in 0..2 { match world(ctx, false) { Some(w) => worlds.push(w), None => { ctx.broken("cannot build a world"); return; } } }
     for k in 0..n {
         let idx = k * ctx.nshards + ctx.shard;
         if !ctx.begin_case(idx, "ledger-history") { continue; }
-        let cfg = HistCfg { close_tag_draws: false, faults_max: 0, restore: false, payments: if ctx.thorough() { ctx.prng.gen_range(3..=20) } else { ctx.prng.gen_range(3..=6) }, boundary_balances: ctx.prng.gen_range(0..3) != 0, valid_bias: k % 2 == 0 };
+        let cfg = HistCfg { close_tag_draws: false, faults_max: 0, restore: false, payments: if ctx.thorough() { ctx.prng.gen_range(3..=12) } else { ctx.prng.gen_range(3..=6) }, boundary_balances: ctx.prng.gen_range(0..3) != 0, valid_bias: k % 2 == 0 };
         let ok = run_history(ctx, &worlds[0], &worlds[1], &cfg);
         ctx.count(if ok { "history:complete" } else { "history:stopped-early" });
         ctx.traces += 1;
